@@ -44,8 +44,9 @@ def _worker(payload):
     rec["has_initializer_input"] = bool({t.name for t in mp.graph.initializer} & {i.name for i in mp.graph.input})
     rec["function_attribute_names"] = sorted({a for f in mp.functions for a in list(f.attribute) + [ap.name for ap in f.attribute_proto]})
     stats = Q.Stats()
+    is_fn = name.startswith("fn:")
     try:
-        src = onnx_export.export2python(mp, **opts)
+        src = onnx_export.export2python(mp.functions[0] if is_fn else mp, **opts)
     except Exception as e:  # noqa: BLE001
         rec.update(verdict="export_raised", stage="export", detail=f"{type(e).__name__}: {str(e)[:160]}", tb=traceback.format_exc()[-600:])
         rec["solver"] = stats.as_dict()
@@ -63,7 +64,22 @@ def _worker(payload):
         rec.update(verdict="decoration_failed", stage="decorate", detail=f"{type(e).__name__}: {str(e)[:200]}")
         rec["solver"] = stats.as_dict()
         return rec
-    if opts.get("skip_initializers"):
+    if is_fn:
+        import json as _json
+        fp = mp.functions[0]
+        fn2 = next((v for k, v in vars(mod).items() if hasattr(v, "to_function_proto") and hasattr(v, "function_ir") and v.name == fp.name), None)
+        if fn2 is None:
+            rec.update(verdict="decoration_failed", stage="decorate", detail=f"generated module does not define the script function {fp.name}")
+            rec["solver"] = stats.as_dict()
+            return rec
+        try:
+            attrs_ = _json.loads(next((e.value for e in mp.metadata_props if e.key == "vp_attrs"), "{}"))
+            m2 = S.call_model(fn2, attrs_, [i.type.tensor_type.elem_type for i in mp.graph.input])
+        except Exception as e:  # noqa: BLE001
+            rec.update(verdict="export_of_roundtrip_failed", stage="to_function_proto", detail=f"{type(e).__name__}: {str(e)[:200]}")
+            rec["solver"] = stats.as_dict()
+            return rec
+    elif opts.get("skip_initializers"):
         # the generated module defines make_model(<skipped initializers>): call it with the original values of the initializers
         # the exporter skips (more than 4 elements; main graph first, then subgraphs in node order)
         from onnx import numpy_helper as nh
@@ -212,13 +228,26 @@ def corpus(tier):
             sig = {tuple((o.dtype, o.shape) for o in os_) for os_ in outs if all(isinstance(o, SV) for o in os_)}
             if len(sig) != 1:
                 continue
-            tsrc = c02.typed_source(S.HEADER + p.src, p.entry, spec, list(next(iter(sig))))
-            tmod = S.load_source(tsrc, "c13typed")
-            mp = getattr(tmod, p.entry).to_model_proto()
-            items.append((f"script:{p.name}", mp.SerializeToString(), [(n, int(dt), tuple(sh)) for n, dt, sh in spec]))
-            if "random" not in p.tags and len(mp.graph.node) >= 3:
-                am = adversarial_rename(mp, len(items))
-                items.append((f"script:{p.name}:tricky-names", am.SerializeToString(), [(n, int(dt), tuple(sh)) for n, dt, sh in spec]))
+            try:
+                tsrc = c02.typed_source(S.HEADER + p.src, p.entry, spec, list(next(iter(sig))))
+                tmod = S.load_source(tsrc, "c13typed")
+                mp = getattr(tmod, p.entry).to_model_proto()
+                items.append((f"script:{p.name}", mp.SerializeToString(), [(n, int(dt), tuple(sh)) for n, dt, sh in spec]))
+                if "random" not in p.tags and len(mp.graph.node) >= 3:
+                    am = adversarial_rename(mp, len(items))
+                    items.append((f"script:{p.name}:tricky-names", am.SerializeToString(), [(n, int(dt), tuple(sh)) for n, dt, sh in spec]))
+            except ValueError:
+                pass  # required attribute parameters: no model leg, the function leg below still applies
+            # function leg: the FunctionProto itself (attribute parameters stay parameters), wrapped in a one-node call model
+            if "random" not in p.tags and any(a for a in p.attrs) or ("float" in p.src and "random" not in p.tags and p.attrs != [{}]):
+                import json as _json
+                for ai, attrs in enumerate(p.attrs):
+                    cm = S.call_model(fn, attrs, [int(dt) for _, dt, _ in spec])
+                    if len(cm.functions) != 1:
+                        continue  # calls to other functions: a single FunctionProto cannot be exported on its own
+                    e_ = cm.metadata_props.add()
+                    e_.key, e_.value = "vp_attrs", _json.dumps(attrs)
+                    items.append((f"fn:{p.name}:{ai}", cm.SerializeToString(), [(n, int(dt), tuple(sh)) for n, dt, sh in spec]))
         except Exception:  # noqa: BLE001 - refused programs are not in the class
             continue
     # every binary operator the exporter may render as a Python operator (and look-alikes with attributes), per element type
@@ -337,6 +366,7 @@ def main(tier: str, only=None) -> int:
                 continue
             if m.get("unbound_is_function_attribute") and not any(
                     f"Unbound name: {a}." in (r.get("detail") or "") or f"Unbound name: {a}" == (r.get("detail") or "").strip().split("ERROR: ")[-1].rstrip(".")
+                    or f"Cannot use ir.Value '{a}' as an attribute" in (r.get("detail") or "")
                     for a in r.get("function_attribute_names") or []):
                 continue
             run.known(k["text"])
